@@ -35,10 +35,12 @@ G_BEGIN_DECLS
  * GI_IS_STRUCT_INFO
  * @info: an info structure
  *
- * Checks if @info is a #GIStructInfo.
+ * Checks if @info is a #GIStructInfo: a structure (%GI_INFO_TYPE_STRUCT) or
+ * a boxed structure (%GI_INFO_TYPE_BOXED), which is stored the same way.
  */
 #define GI_IS_STRUCT_INFO(info) \
-    (g_base_info_get_type((GIBaseInfo*)info) ==  GI_INFO_TYPE_STRUCT)
+    ((g_base_info_get_type((GIBaseInfo*)info) ==  GI_INFO_TYPE_STRUCT) || \
+     (g_base_info_get_type((GIBaseInfo*)info) ==  GI_INFO_TYPE_BOXED))
 
 
 GI_AVAILABLE_IN_ALL
